@@ -148,8 +148,8 @@ Proof.
   intros cur v rest H. unfold read_float in H. bind_ok H. apply skip_spaces_le in Ha. destruct Ha as [L _].
   destruct (string_to_float x) as [[v' r']|] eqn:E.
   - pose proof (advance_le x r'). destruct v'; try (inv H; lia).
-    destruct (beq (region x) s_NaN); [inv H; lia|discriminate].
-  - destruct (beq (region x) s_nan); [inv H; lia|discriminate].
+    destruct (beq (consumed x r') s_NaN); [inv H; lia|discriminate].
+  - discriminate.
 Qed.
 
 Lemma consume_newline_shorter : forall cur r, consume_newline cur = Ok r -> (length r < length cur)%nat.
@@ -225,8 +225,8 @@ Lemma read_float_no_oof : forall cur, no_oof (read_float cur).
 Proof.
   intros cur. unfold read_float. apply bind_no_oof; [apply skip_spaces_no_oof|]. intros x _. unfold no_oof.
   destruct (string_to_float x) as [[v r]|].
-  - destruct v; try discriminate. destruct (beq (region x) s_NaN); discriminate.
-  - destruct (beq (region x) s_nan); discriminate.
+  - destruct v; try discriminate. destruct (beq (consumed x r) s_NaN); discriminate.
+  - discriminate.
 Qed.
 Lemma consume_newline_no_oof : forall cur, no_oof (consume_newline cur).
 Proof.
@@ -843,8 +843,8 @@ Proof.
   destruct (string_to_float x) as [[v' r']|].
   - assert (S : suffix (advance x r') x) by apply suffix_skipn.
     destruct v'; try (inv H; eapply suffix_trans; [exact S|exact Ha]).
-    destruct (beq (region x) s_NaN); [inv H; eapply suffix_trans; [exact S|exact Ha]|discriminate].
-  - destruct (beq (region x) s_nan); [inv H; exact Ha|discriminate].
+    destruct (beq (consumed x r') s_NaN); [inv H; eapply suffix_trans; [exact S|exact Ha]|discriminate].
+  - discriminate.
 Qed.
 Lemma consume_newline_suffix : forall cur r, consume_newline cur = Ok r -> suffix r cur.
 Proof. intros cur r H. unfold consume_newline in H. bind_ok H. destruct x as [c r']. apply get_suffix in Ha. destruct (c =? 10); [inv H; exact Ha|discriminate]. Qed.
